@@ -171,6 +171,9 @@ def r_it_step3(ctx, prog):
                         if a[0] == 'cmp' and a[1] == 'ne' and a[3] == ('const', 0) and a[2][0] == 'call' and \
                                 a[2][1] == 'of_is_decoding_complete':
                             ok = True
+                # an exit into a block that never returns (ASSERT failure -> exit() in the OF_DEBUG build) is not an early exit
+                if s2.term().op == 'unreachable' or any(c2.callee in ('exit', 'abort') for c2 in s2.insts if c2.op == 'call'):
+                    ok = True
                 # error exits (allocation failure) are not there in step 3 today; any other early exit drops pending equations
                 if not ok:
                     bad = b.term()
